@@ -622,7 +622,7 @@ func validateLeafTypeValue(lt *sdcpb.SchemaLeafType, v any) error {
 func validateLeafListValue(ll *sdcpb.LeafListSchema, v any) error {
 	switch vTyped := v.(type) {
 	case *sdcpb.ScalarArray:
-		for _, elem := range vTyped.Element {
+		for _, elem := range vTyped.GetElement() {
 			val, err := utils.GetSchemaValue(elem)
 			if err != nil {
 				return err
